@@ -10,7 +10,7 @@ RULE = ("(a) exhaustive enumeration of batch_tasks over n_tasks x n_batches x st
         "array}; (b) Hypothesis-generated large values; (c) run_worker driven with generated file sizes, n_batches, "
         "n_prior_samples / samples_idx and pool sizes through a recording pool. Oracle: partition predicate "
         "(non-empty, contiguous, ordered, disjoint batches whose union is exactly the requested range / array slice, "
-        "each task carrying its own start index, extra args passed through). Non-trivial: more than one batch "
+        "each task carrying its own start index, extra args passed through); (d) the partition as the samplers use it: marginal_ln_likelihood / rejection_sample / iterative_rejection_sample on cache-file and file paths with a scripted helper, where the rows handed to the likelihood step and to the linear-parameter step must cover the evaluated / accepted samples exactly once, in order, and the assembled output must follow. Non-trivial: more than one batch "
         "requested and n_tasks not a multiple of n_batches, or n_batches > n_tasks, or start_idx > 0; distinct by "
         "case fingerprint.")
 SHARDS = {"quick": 2, "thorough": 16}
@@ -87,17 +87,18 @@ def run_worker_body_factory(ctx):
     from thejoker import JokerSamples
     from thejoker.multiproc_helpers import run_worker
 
-    files = {}
+    last = [None]
 
     def get_file(n):
-        if n not in files:
+        # one path, re-written whenever the size changes: the requested range is that of the file as it is *now*
+        path = os.path.join(ctx.workdir, "rw.hdf5")
+        if last[0] != n:
             s = JokerSamples()
             s["P"] = np.arange(1, n + 1, dtype=float) * u.day
             s["e"] = np.zeros(n)
-            path = os.path.join(ctx.workdir, "rw%d.hdf5" % n)
             s.write(path, overwrite=True)
-            files[n] = path
-        return files[n]
+            last[0] = n
+        return path
 
     class Pool:
         def __init__(self, size):
@@ -191,6 +192,113 @@ def rw_cases(draw):
     return case
 
 
+# ----------------------------------------------------------------------------- the partition as the samplers use it
+@st.composite
+def sampler_cases(draw):
+    from vt import rej
+    from vt.checks import c06
+
+    method = draw(st.sampled_from(["marginal", "rejection", "iterative"]))
+    if method == "iterative":
+        case = draw(c06.iter_cases(max_n=60))
+        case["return_logprobs"] = False
+        if draw(st.booleans()):
+            # several growth iterations: a small first batch and few acceptances
+            case["init_batch"] = draw(st.integers(1, 4))
+            case["profile"] = draw(st.sampled_from(["spike", "last_only", "range"]))
+            case["n_requested"] = draw(st.integers(2, 6))
+    else:
+        case = draw(rej.rejection_cases(max_n=60))
+    case["method"] = method
+    case["path"] = draw(st.sampled_from(["cache", "file"]))
+    case["pool_order"] = None
+    case["steer"] = None
+    if method == "iterative" and case["max_prior"] is not None:
+        case["init_batch"] = min(case["init_batch"], case["max_prior"])
+    return case
+
+
+def sampler_body_factory(ctx):
+    import thejoker as tj
+    from vt import fakes, rej
+    from vt.checks import c06
+    from vt.recgen import RecordingPool
+
+    def body(case):
+        n, method = case["n"], case["method"]
+        lls = rej.profile_of(case)
+        cls = ["use:" + method, "use:path:" + case["path"], "use:n_linear=%d" % case["n_linear"]]
+        if method == "marginal":
+            helper = fakes.ScriptedHelper(lls)
+            lib = fakes.scripted_library(n, units=case.get("lib_units"))
+            pool = RecordingPool(size=case.get("pool_size", 1))
+            joker = fakes.install(tj.TheJoker(rej._dummy_prior(), pool=pool), helper)
+            src = lib
+            if case["path"] == "file":
+                src = os.path.join(ctx.workdir, "c16lib.hdf5")
+                lib.write(src, overwrite=True)
+            with ctx.sut("marginal_ln_likelihood"):
+                ll = np.asarray(joker.marginal_ln_likelihood(None, src, n_batches=case["n_batches"]))
+            asked = np.concatenate(helper.ll_calls) if helper.ll_calls else np.array([], dtype=int)
+            if not np.array_equal(asked, np.arange(n)):
+                raise Violation("the batches evaluated by marginal_ln_likelihood do not cover the %d library rows exactly "
+                                "once, in order" % n, asked=asked[:30])
+            if ll.shape != (n,) or not np.array_equal(ll, lls):
+                raise Violation("marginal_ln_likelihood: value i is not the likelihood of library row i", got=ll[:12], want=lls[:12])
+            nb = len(helper.ll_calls)
+            ctx.note_case(case, nb > 1, cls + ["use:batches=%s" % ("1" if nb == 1 else ">1")])
+            return
+        if method == "rejection":
+            with ctx.sut("rejection_sample"):
+                R = rej.run_rejection(ctx, case, lls=lls)
+            order = rej.evaluation_order(case, R["rg"])
+        else:
+            it = dict(n_requested_samples=case["n_requested"], init_batch_size=case["init_batch"],
+                      growth_factor=case["growth"], max_prior_samples=case["max_prior"])
+            try:
+                R = rej.run_rejection(ctx, case, lls=lls, iterative=it, order_fn=c06.iter_order)
+            except Violation:
+                raise
+            except Exception as e:
+                limit = n if case["max_prior"] is None else min(n, case["max_prior"])
+                if case["init_batch"] <= limit and bool(np.all(np.isfinite(lls))):
+                    raise Violation("iterative_rejection_sample raised %s for a large-enough library with finite likelihoods "
+                                    "(its batches did not line up): %s" % (type(e).__name__, str(e)[:200]))
+                ctx.classes["use:iterative raised %s (library too small or non-finite likelihoods)" % type(e).__name__] += 1
+                return
+            order = c06.iter_order(case, R["rg"])
+        out, rg, helper, lib = R["res"], R["rg"], R["helper"], R["lib"]
+        un = rg.calls("uniform")
+        if not un:
+            raise Violation("no uniform draw was made")
+        n_eval = int(np.size(un[-1]["out"]))
+        asked = np.concatenate(helper.ll_calls) if helper.ll_calls else np.array([], dtype=int)
+        if len(asked) != n_eval or not np.array_equal(asked, order[:n_eval]):
+            raise Violation("%s: the batches handed to the workers do not cover the evaluated prior samples exactly once, "
+                            "in order (%d evaluated)" % (method, n_eval), asked=asked[:30], order=np.asarray(order)[:30])
+        ev = np.asarray(order)[:n_eval]
+        if not np.isfinite(lls[ev]).any():
+            ctx.classes["use:outside domain (no finite likelihood)"] += 1
+            return
+        uu = np.asarray(un[-1]["out"], dtype=float)
+        lim = case["max_post"] if method == "rejection" else case["n_requested"]
+        acc = ev[rej.accepted_from(lls[ev], uu, lim)]
+        if not isinstance(out, tj.JokerSamples):
+            raise Violation("%s returned a %s" % (method, type(out).__name__))
+        given = np.concatenate(helper.post_calls) if helper.post_calls else np.array([], dtype=int)
+        if not np.array_equal(given, acc):
+            raise Violation("%s: the batches of the linear-parameter step do not cover the accepted samples exactly once, "
+                            "in order" % method, given=given[:30], accepted=acc[:30])
+        rej.check_rows(out, lib, acc, case["n_linear"])
+        nb = len(helper.post_calls)
+        ctx.note_case(case, nb > 1 or len(helper.ll_calls) > 1,
+                      cls + ["use:linear-step batches=%s" % ("1" if nb <= 1 else ">1"),
+                             "use:likelihood rounds=%s" % ("1" if len(un) == 1 else ">1"),
+                             "use:likelihood batches=%s" % ("1" if len(helper.ll_calls) <= 1 else ">1")])
+
+    return body
+
+
 def run(ctx):
     body = body_factory(ctx)
     NT, NB = ctx.pick((160, 200), (448, 560))
@@ -220,3 +328,4 @@ def run(ctx):
         st.integers(1, 200000), st.integers(1, 3000), st.integers(0, 50000))
     ctx.search("large", st.one_of(big_range(), big_arr), body, quick=400, thorough=8000)
     ctx.search("run_worker", rw_cases(), run_worker_body_factory(ctx), quick=300, thorough=6000)
+    ctx.search("samplers", sampler_cases(), sampler_body_factory(ctx), quick=400, thorough=8000)
